@@ -85,7 +85,7 @@ FLT1(sech,P_NONE) FLT1(csch,P_NONE) FLT1(coth,P_NONE) FLT1(asech,P_NONE) FLT1(ac
 FLT1(repeat,P_FINITE_A) FLT1(mirrorClamp,P_FINITE_A) FLT1(mirrorRepeat,P_FINITE_A)
 FLT1(iround,P_POS_SMALL_A)
 // uround: documented domain is 0 <= x with the nearest integer representable in uint, i.e. up to 2^32 (not 2^31)
-#define P_POS_U32_A [](auto& x){ typedef typename std::remove_reference<decltype(x.a[0])>::type T; for(int i=0;i<4;i++){ T v=(T)std::fabs((double)x.a[i]); if(!(v<(T)4294967000.0)) v=(T)(3000000000.0+i*1e8); x.a[i]=v; } if(x.a[0]<(T)2147483648.0 && x.a[1]<(T)2147483648.0) x.a[1]=(T)(2147483648.0+(double)x.a[1]); }
+#define P_POS_U32_A [](auto& x){ typedef typename std::remove_reference<decltype(x.a[0])>::type T; for(int i=0;i<4;i++){ T v=(T)std::fabs((double)x.a[i]); if(!(v<(T)4294967000.0)) v=(T)(3000000000.0+i*1e8); x.a[i]=v; } if(x.a[0]<(T)2147483648.0 && x.a[1]<(T)2147483648.0) x.a[1]=(T)(2147483648.0+0.5*(double)x.a[1]); /* stays below 2^31+2^30 */ }
 FLT1(uround,P_POS_U32_A)
 // bit casts (oracle: memcpy)
 VF_OP(floatBitsToInt_f32, In3<float>, F12_f){ chk<float,QF,'V','S','S','S',1>(in,c,GF(floatBitsToInt),[](float x){ return (int)fbits(x); },Exact()); } static Reg<float> r_fbti(&floatBitsToInt_f32);
